@@ -11,6 +11,9 @@ def handleA (st : St) (n : Nat) (toks : List String) : Result := Id.run do
   let some states := (get "states").bind parseStates | return { st, out := [s!"BAD {n} states"] }
   let store := storeOf states
   let kind := (get "kind").getD "?"
+  let faults := (get "faults").getD ""
+  let readFails := faults.contains 'g' || faults.contains 'r'
+  let logsFails := faults.contains 'L'
   let mut st := st
   let mut outs : List String := []
   if kind == "get" then
@@ -21,7 +24,7 @@ def handleA (st : St) (n : Nat) (toks : List String) : Result := Id.run do
     -- the harness puts the id into a URL: what reaches the router is the id up to '?' / '#', percent-decoded;
     -- ids that are not a single clean path segment never match the route
     let clean := id.all (fun c => c != 47 && c != 37 && c != 63 && c != 35) && id != B.ofString "." && id != B.ofString ".."
-    let r := if clean then Api.getCheckpoint store id else { status := 404, body := [] }
+    let r := if clean then Api.getCheckpointF readFails store id else { status := 404, body := [] }
     let mclient := match Api.client r with
       | .bytes b => "ok:" ++ hx b | .notExist => "notexist" | .err => "err"
     let mut ok := true
@@ -39,6 +42,18 @@ def handleA (st : St) (n : Nat) (toks : List String) : Result := Id.run do
     st := st.bump s!"api.get.{istatus}"
     -- C16 monitors
     let held := store.get id
+    if readFails then
+      -- a failing read: an error status is the only truthful answer for a routed ID; 200 must still be the stored bytes
+      if clean && Api.routeMatch id && istatus == 404 then
+        let f := fail st n "C16" "a failing storage read was served as 404 'no checkpoint' (the client turns that into the does-not-exist signal feeders act on)"
+        st := f.st; outs := outs ++ f.out
+      if istatus == 200 && held != some ibody then
+        let f := fail st n "C16" "GET returned 200 with bytes that are not the stored checkpoint of that log (during a failing read)"
+        st := f.st; outs := outs ++ f.out
+      if clean && Api.routeMatch id && iclient == "notexist" then
+        let f := fail st n "C16" "the bundled client reported 'does not exist' although the witness's storage read failed"
+        st := f.st; outs := outs ++ f.out
+      return { st, out := outs }
     if istatus == 200 then
       match held with
       | some b =>
@@ -74,9 +89,24 @@ def handleA (st : St) (n : Nat) (toks : List String) : Result := Id.run do
         st := f.st; outs := outs ++ f.out
   else
     let ilist := (get "list").getD "?"
-    let ids := (Api.getLogs store).map hx
+    let some istatus := (get "status").bind String.toNat? | return { st, out := [s!"BAD {n} status"] }
+    let (mstatus, mids) := Api.getLogsF logsFails store
+    let ids := mids.map hx
     let mlist := if ids.isEmpty then "-" else ",".intercalate (ids.toArray.qsort (· < ·)).toList
-    if mlist != ilist then
+    st := st.bump s!"api.logs.{istatus}"
+    if mstatus != istatus then
+      st := { st with nDiv := st.nDiv + 1 }
+      outs := outs ++ [s!"DIVERGE {n} A field=logs model={mstatus} impl={istatus}"]
+      if istatus == 200 then
+        let truth := (Api.getLogs store).map hx
+        let tl := if truth.isEmpty then "-" else ",".intercalate (truth.toArray.qsort (· < ·)).toList
+        if tl != ilist then
+          let f := fail st n "C16" "the log list was answered 200 with something other than the set of logs with an accepted update (storage listing failed)"
+          st := f.st; outs := outs ++ f.out
+    else if istatus != 200 then
+      st := { st with nOK := st.nOK + 1 }
+      outs := outs ++ [s!"OK {n}"]
+    else if mlist != ilist then
       st := { st with nDiv := st.nDiv + 1 }
       outs := outs ++ [s!"DIVERGE {n} A field=logs model={mlist.take 100} impl={ilist.take 100}"]
       let f := fail st n "C16" "the log list is not exactly the set of logs with an accepted update"
